@@ -141,11 +141,12 @@ def op_hist(*steps: str) -> str:
                     src = f"class K_{fid}:\n    def __init__(self, prov):\n        self.prov = prov\n"
                     if not isinstance(provs.get(pid[5:]), (NotProv, StrProv)):
                         src += "    def get_dltype_scope(self):\n        return self.prov.get_dltype_scope()\n"
-                    src += f"    @dltype.dltyped('self')\n    def f(self{', ' if sig else ''}{sig}){rets}:\n"
+                    # ("self" built at run time: equal to the literal, not the interned object)
+                    src += f"    @dltype.dltyped(''.join(('se', 'lf')))\n    def f(self{', ' if sig else ''}{sig}){rets}:\n"
                     src += "".join("    " + l + "\n" for l in body.splitlines())
                     src += f"F_{fid} = K_{fid}(PROV_{pid[5:]}).f\n"
                 else:
-                    dec = "" if pid == "-" else ("'self'" if pid == "selfraw" else f"PROV_{pid}")
+                    dec = "" if pid == "-" else ("''.join(('se', 'lf'))" if pid == "selfraw" else f"PROV_{pid}")
                     src = f"@dltype.dltyped({dec})\ndef F_{fid}({sig}){rets}:\n{body}"
                 ns.setdefault("RET", [None])
                 ns.setdefault("RAISE", [False])
